@@ -64,7 +64,8 @@ def fee_list_line(amount, denom, entries):
 
 def fee_lists(r, n_random=400):
     lines = []
-    A = [1, 2, 100, 9999, 10000, 10001, 10 ** 6, 2 ** 64 + 1, 2 ** 255, 2 ** 256 - 1]
+    A = [1, 2, 100, 9999, 10000, 10001, 10 ** 6, 2 ** 64 + 1, 2 ** 255, 2 ** 256 - 1,
+         2 ** 31, 2 ** 32 - 1, 2 ** 32, 2 ** 53 + 1, 2 ** 63 - 1, 2 ** 63, 2 ** 64 // 10000, 2 ** 64 // 10000 + 1, 2 ** 64 // 9999 + 1, 10 ** 18, 10 ** 19, 2 ** 64 - 1, 2 ** 64, 2 ** 128, 2 ** 192]
     good = U[0]
     # boundary: total fee in {A-1, A, A+1}, both types, repeated recipients, 0..6 entries
     for a in A:
@@ -80,6 +81,10 @@ def fee_lists(r, n_random=400):
         lines.append(fee_list_line(a, "uusdc", [(good, "b", 1)] * 6))
         lines.append(fee_list_line(a, "uusdc", [(good, "b", 1)] * 5))
         lines.append(fee_list_line(a, "uusdc", []))
+    for a in (2 ** 63, 2 ** 64 - 1, 10 ** 18, 5 * 10 ** 18, 2 ** 64 // 10000 + 1):
+        for bps in (1, 2, 3, 50, 100, 2500, 5000, 9999, 10000):
+            lines.append(fee_list_line(a, "uusdc", [(good, "b", bps)]))
+            lines.append(fee_list_line(a, "uusdc", [(good, "b", bps), (U[1], "a", 1)]))
     bad_entries = [(good, "b", 0), (good, "b", 10001), (good, "b", 2 ** 32 - 1), (good, "a", 0), (good, "a", -1), (good, "a", "x"),
                    (good, "a", ""), (good, "a", "+5"), (good, "a", "007"), (good, "a", "0x10"), (good, "a", " 5"), (good, "a", "1_0"), (good, "n", 0),
                    ("", "b", 1), ("noble1xyz", "b", 1), (good.upper(), "b", 1), ("cosmos1qyqszqgpqyqszqgpqyqszqgpqyqszqgpjnp7du", "b", 1),
